@@ -20,14 +20,23 @@ def run(ctx):
     hists, crashes = got
     new = 0
     for c in crashes:
+        if '"t":"aborted"' in c.get("tail", ""):
+            continue        # reported below as an unanswered request, with the history as replay
         key = "server-died/" + ((c.get("request") or {}).get("kind") or "unknown")
         if ctx.finding(key, "the server process died while handling a request (the harness runs client and server in one process)", c):
             new += 1
     unanswered = []
+    index_reported = False
     for h in hists:
         for e in h.evs:
             if e["out"]["k"] in ("timeout", "error", "dead"):
                 unanswered.append((h, e))
+            if not e["tables"].get("consistent", True) and not index_reported:
+                index_reported = True
+                if ctx.finding("item-index-inconsistent", "after a %s request the monitored item indexes (by node / by subscription) list items "
+                               "that are not in the id table any more: later changes of the node are sent to a subscription that is gone" % e["ev"]["kind"],
+                               {"history": h.id, "event": e["ev"], "outcome": e["out"], "replay_history": sc.replay_file_obj(h, e["i"])}):
+                    new += 1
     seen = set()
     for h, e in unanswered:
         key = "unanswered/" + e["ev"]["kind"]
